@@ -162,12 +162,27 @@ def w3(run):
     # the text preparation that runs before the grammar, evaluated as a model on every witness
     from ..strpipe import StrEval
     entry_item = [it for it in mod["items"] if it.get("k") == "fn" and it.get("name") == entry and not it.get("test")]
-    sink_names = {n.split("::")[-1] for n in seen if n != pcl}
+    # the pipeline ends where the text is handed to a function that runs the grammar; every other function of the
+    # module that the preparation calls (a normalising helper ...) is interpreted
+    def runs_parser(q, seen_=None):
+        seen_ = seen_ if seen_ is not None else set()
+        if q in seen_ or q not in prog.bodies:
+            return False
+        seen_.add(q)
+        for _, t_ in prog.calls(q):
+            n_ = Program.callee_name(t_)
+            if re.search(r"pom::parser::Parser::<'a, I, O>::parse$", n_):
+                return True
+            if n_.startswith("svgbob::util::parser::") and "closure" not in n_ and runs_parser(n_, seen_):
+                return True
+        return False
+    sink_names = {n.split("::")[-1] for n in seen if n != pcl and runs_parser(n)}
+    mod_fns = {it["name"]: it for it in mod["items"] if it.get("k") == "fn" and not it.get("test") and it["name"] not in sink_names and it["name"] != entry}
     prep = None
     if entry_item:
         try:
-            StrEval(sink_names).run_fn(entry_item[0], "x")
-            prep = lambda doc: StrEval(sink_names).run_fn(entry_item[0], doc)[1]
+            StrEval(sink_names, mod_fns).run_fn(entry_item[0], "x")
+            prep = lambda doc: StrEval(sink_names, mod_fns).run_fn(entry_item[0], doc)[1]
         except Unknown as ex:
             run.bad("C17.W3", "legend-preparation-uninterpretable", gfile,
                     "the text preparation in %s uses a construct outside the modelled subset (%s); its effect on line ends cannot be decided" % (entry, ex))
